@@ -132,13 +132,15 @@ def run(ctx):
                 + [{'what': 'prove', 'x': 1, 'm': m, 'n': 64, 'seeded': False, 'promise': True} for m in (1, 2)]
                 + [{'what': 'witness_popped', 'x': x, 'm': m, 'swap_remove': sr} for (x, m, sr) in ((1, 4, False), (2, 2, False), (1, 8, True), (3, 4, True))]
                 + [{'what': 'prove_refused_late', 'x': x, 'm': m, 'n': 64} for (x, m) in ((1, 2), (1, 4), (2, 4), (1, 8))]
+                + [{'what': 'opening_clone_from', 'x': x} for x in (1, 2, 3)]
+                + [{'what': 'verify_recover', 'x': x, 'm': 1, 'n': 64, 'seeded': True, 'zero_last_blinding': True} for x in (2, 3, 6)]
                 + [{'what': 'prove_twice', 'x': x, 'm': m, 'n': 64, 'seeded': sd} for (x, m, sd) in ((1, 1, True), (2, 1, True), (1, 4, False))]):
         c = dict({'scenario': 'zeroize'}, **cfg)
         o = run_replay(c, ctx.seed)
         conc.append({'cfg': cfg, 'out': o})
         ctx.expect('crash' not in o and o.get('freed_blocks', 0) > 0, 'C20:replay-crash', 'concrete zeroize scenario failed: %s' % str(o)[:200], c, None)
         if 'crash' not in o:
-            key = 'C20:%s-frees-secret' % {'prove': 'prover-temporary', 'verify_recover': 'verifier-temporary', 'verify_recover_fail': 'verifier-temporary', 'verify_recover_fail_batch': 'verifier-temporary', 'prove_refused_g': 'prover-temporary', 'prove_refused_h': 'prover-temporary', 'prove_refused_late': 'prover-temporary', 'prove_twice': 'prover-temporary', 'witness_popped': 'witness', 'opening_spare': 'opening'}.get(cfg['what'], cfg['what'])
+            key = 'C20:%s-frees-secret' % {'prove': 'prover-temporary', 'verify_recover': 'verifier-temporary', 'verify_recover_fail': 'verifier-temporary', 'verify_recover_fail_batch': 'verifier-temporary', 'prove_refused_g': 'prover-temporary', 'prove_refused_h': 'prover-temporary', 'prove_refused_late': 'prover-temporary', 'prove_twice': 'prover-temporary', 'opening_clone_from': 'opening', 'witness_popped': 'witness', 'opening_spare': 'opening'}.get(cfg['what'], cfg['what'])
             ctx.expect(o['dirty_blocks'] == 0, key, 'concrete run on the real crates: %s (x=%s m=%s) released %d heap block(s) still holding secret bytes (e.g. one of %d bytes)' % (
                 cfg['what'], cfg.get('x'), cfg.get('m'), o['dirty_blocks'], o['a_dirty_block_size']), c, 'zeroize_dirty')
     ctx.cases = len(results) + len(conc)
